@@ -334,10 +334,60 @@ def r13_5(ctx):
                f"{acc}() hands out the facade for representations {handed} but Deref only serves {served}: len()/iteration on a freshly deserialized value panics (unreachable!)")
 
 
+def r13_6(ctx):
+    """escape carry across blocks: in the bitmap string scanners (functions calling
+    get_escaped_branchless_*), the carry of a trailing backslash from the previous block is consulted on
+    every path of a block iteration before the quote bits are used: either it is handed to
+    get_escaped_branchless_* or its value is read (tested against 0 / copied into the escape mask)"""
+    prog = ctx.prog()
+    users = [f for f in prog.fns.values() if f.crate == "sonic_rs" and any(callee_is(t, "get_escaped_branchless_u32", "get_escaped_branchless_u64") for b, t in f.calls())]
+    ctx.floor("R13.6", "bitmap string scanners with an escape carry", len(users), 2)
+    for f in users:
+        gc = [(b, t) for b, t in f.calls() if callee_is(t, "get_escaped_branchless_u32", "get_escaped_branchless_u64")]
+        # the carry variable
+        a0 = op_local(gc[0][1]["args"][0])
+        sc = f.src(a0) if a0 is not None else ("multi",)
+        carry_param = sc[1] if sc[0] == "param" else None
+        carry_local = sc[1] if sc[0] == "refof" else None
+        if carry_param is None and carry_local is None:
+            ctx.ob("R13.6", f"{short(f.id)}:carry", False, f.loc(), "cannot identify the escape carry variable (fail closed)")
+            continue
+        consult = {b for b, t in gc}
+        for b, i, s_ in f.assigns():
+            for p in rv_places_local(s_["rv"]):
+                if carry_param is not None and p[0] == carry_param and p[1] == ["*"]:
+                    consult.add(b)
+                if carry_local is not None and p[0] == carry_local and not p[1] and s_["rv"]["k"] in ("use", "binop"):
+                    consult.add(b)
+        bms = [(b, t) for b, t in f.calls() if callee_is(t, "bitmask")]
+        if len(bms) < 2:
+            ctx.ob("R13.6", f"{short(f.id)}:bitmasks", False, f.loc(), "expected the backslash and the quote bitmask (fail closed)")
+            continue
+        last = [x for x in bms if all(f.dominates(x[0], o[0]) for o in bms)]  # the first one: start of a block iteration
+        if len(last) != 1:
+            ctx.ob("R13.6", f"{short(f.id)}:bitmasks", False, f.loc(), "cannot order the bitmask computations (fail closed)")
+            continue
+        S = last[0][0]
+        goals = set(f.return_blocks) | {S}
+        leak = set()
+        for s0 in f.succs(S):
+            if s0 in consult:
+                continue
+            leak |= f.reachable_from(s0, avoid=consult) & goals
+        ctx.ob("R13.6", f"{short(f.id)}:carry-consulted", not leak, f.loc(last[0][1]["ln"]),
+               "on every path of a block iteration the escape carry of the previous block is consulted before the quote bits are used" if not leak else
+               "a path of the block iteration uses the quote bits without consulting the escape carry: a quote escaped by a backslash at the end of the previous block ends the string (wrong span / lost escape status)")
+
+
+def rv_places_local(rv):
+    from ..analysis import rv_places
+    return rv_places(rv)
+
+
 def r13_w(ctx):
     """type-level witnesses (compile_fail doctests with error codes, each with a compiling twin)"""
     from ..core import witness_obligations
     witness_obligations(ctx, "R13.W", [('W3LazyValueBorrows', 'a borrowed LazyValue cannot outlive its input')])
 
 
-RULES = [("R13.1", r13_1), ("R13.2", r13_2), ("R13.3", r13_3), ("R13.4", r13_4), ("R13.5", r13_5), ("R13.W", r13_w)]
+RULES = [("R13.1", r13_1), ("R13.2", r13_2), ("R13.3", r13_3), ("R13.4", r13_4), ("R13.5", r13_5), ("R13.6", r13_6), ("R13.W", r13_w)]
